@@ -19,6 +19,7 @@ use crate::newline::StringNewline;
 use crate::outcome::Outcome;
 use crate::parsers::markdown::DEFAULT_MARKDOWN_LANGUAGES;
 use crate::parsers::markdown::MarkdownIterator;
+use crate::parsers::markdown::MarkdownParserError;
 use crate::parsers::markdown::MarkdownToken;
 use crate::parsers::markdown::NumberedLines;
 
@@ -50,12 +51,12 @@ impl UpdateGenerator for MarkdownUpdateGenerator {
         // initialize markdown iterator
         let lines = original_document.lines();
         let languages: &[&str] = &self.0.iter().map(|s| s as &str).collect::<Vec<_>>();
-        let iterator = MarkdownIterator::new(languages, lines);
+        let mut iterator = MarkdownIterator::new(languages, lines);
 
         // iterate all lines of original document ...
         let mut updated = String::new();
         let mut testcase_index = 0;
-        for token in iterator {
+        for token in iterator.by_ref() {
             match token {
                 MarkdownToken::Line(_, line) => updated.push_str(&line.assure_newline()),
                 MarkdownToken::DocumentConfig(config) => {
@@ -97,6 +98,9 @@ impl UpdateGenerator for MarkdownUpdateGenerator {
                     testcase_index += 1;
                 }
             }
+        }
+        if let Some(line) = iterator.unterminated() {
+            anyhow::bail!(MarkdownParserError::UnterminatedBlock { line });
         }
         Ok(updated)
     }
